@@ -420,6 +420,18 @@ EDGE = [
     "[1,\n// x\n2]", "[1,\n# c\n2]", "[\n# c\n]", "[# c\n]", "{# c\n}", "{\n// x\n}", "{\n\"a\":1\n// x\n}", "{\"a\":1\n,\n\"b\":2\n}", "{\"a\":1,\n}", "[1,\n]",
     "1 /* {a:1,\n}*/", "1 /* {\n a:1\n ,\n b:2\n} */", "1 /* {a:[1,\n2]} */", "1 /*\n\n*/", "1 /* x\n*/", "1 /* {}\n\n- x\n*/",
     "{\"a\":1 x}", "[1 x]", "[1 x", "{\"a\":1 x", "{\"a\" x", "1 // {a:1 x", "1 // {a x", "  ", "\n", " \n 1 \n ", "\r\n1\r\n", "\t1\t",
+    # sixth round (fixes 542fa4b d5e4e81 2daaa0c 0196ace): CRLF behind an annotated property, a line break after a bare rule name, the annotation ban after a
+    # non-empty array, a ### block behind a note
+    "{\"a\":1, // x\r\n\"b\":2}", "{\"a\":1, // x\r\n// y\r\n\"b\":2}", "{\"a\":1, // {min:1}\r\n\"b\":2 // y\r\n}", "{\"a\":1, // x\r\n\r\n\"b\":2}",
+    "{\"a\":1, // x\r \n\"b\":2}", "{\"a\":1, // x # c\r\n\"b\":2}", "{\"a\":1, # c\r\n\"b\":2}", "{\"a\":1, // {} - n\r\n@k:2}", "{\"a\":1, // x\r\n/",
+    "{\"a\":1, // x\r\n // y\r\n}", "{\"a\":1,\r\n// x\r\n\"b\":2}", "[1, // x\r\n2]",
+    "1 /* {min\n: 1} */", "1 /* {min \n: 1} */", "1 /* {min\r\n : 1} */", "1 /* {min\n\n: 1, max\n:2} */", "1 // {min\n: 1}", "1 /* {\"min\"\n: 1} */", "1 /* {min\n 1} */",
+    "1 /* {a:1 // {min\n:1}\n} */", "1 /* {m\n", "1 /* {m \n",
+    "{\"a\":[1],\n\"b\":2 // x\n}", "{\"a\":[1], \"b\":2 // x\n}", "{\"a\":[1], // x\n\"b\":2}", "{\"a\":[1] // x\n}", "{\"a\":[1]\n// x\n}", "[[1],\n// x\n2]", "[[1], 2 // x\n]",
+    "[[1]\n// x\n]", "[[1]\n, // x\n2]", "[[1],\n2 // x\n]", "{\"a\":[1], @k:2 // x\n}", "{\"a\":[1],\n@k:2 // x\n}", "[[1], // x\n2]", "[[1] // x\n,2]", "[[1] , // x\n2]",
+    "1 /* {a:[[1],\n// x\n2]} */", "{\"a\":[[1]], \"b\":[] // x\n}",
+    "1 // x ### c\nd ### e\n2", "1 // x ### c ###\n", "1 // x ### c", "1 // x ###", "1 // x ## c\n", "1 // x # c\n", "{\"a\":1, // n ### c\nd ###\n\"b\":2}", "1 // {} - n ### c\n ### \n",
+    "1 // {min:1} ### c\n###\n", "1 /* {a:1 // n ### c\n} */", "[1, // n ### c\n ### // m\n2]", "1 // x ### c\n### // y\n",
 ]
 
 
